@@ -15,7 +15,8 @@ FAM = Family(
                "x masks 01/80/FF of the header, every offset (quick: ~300 sampled per region) of the body, every "
                "truncation length, every torn-header prefix) and calls the real cache.Open on each"),
     assumptions=["SHA-1 is collision resistant and never yields the all-zero digest (abstract injective digest in the spec)",
-                 "bodies: empty, 1 B, 101 B, 70 kB incompressible (several deflate blocks)"],
+                 "bodies: empty, 1 B, 101 B, 70 kB incompressible (several deflate blocks); every other 3-block body is trimmed so "
+                 "that the stored stream is an exact multiple of 4096 bytes"],
 )
 
 
